@@ -357,14 +357,14 @@ def merge_shape(ra, rb_):
 def run_mpair(block, ctx):
     """two generators' ACLs merged as production does; inside the unambiguous domain: result == reference filter"""
     from annet.annlib import patching
-    name, fa, fb = aclgen.merge_pairs()[block["i"]]
+    name, fa, fb, negated = aclgen.merge_pairs()[block["i"]]
     ra, rb_ = fa(), fb()
     ta, tb = refacl.text(ra), refacl.text(rb_)
     combined = aclgen.combined_text([("ga", ta), ("gb", tb)])
     cab = compile_text(combined)
     lvl = refacl.top(refacl.merge([("ga", ra), ("gb", rb_)]))
     rows = []
-    for r in aclgen.row_alphabet(ra) + aclgen.row_alphabet(rb_):
+    for r in aclgen.row_alphabet(ra, negated, PREFIX) + aclgen.row_alphabet(rb_, negated, PREFIX):
         if r not in rows and r != "x y":
             rows.append(r)
     rows = rows[:6]
@@ -416,7 +416,7 @@ def replay(case):
         out.append((sig, d))
     if case["kind"] == "mpair":
         from annet.annlib import patching
-        name, fa, fb = aclgen.merge_pairs()[case["i"]]
+        name, fa, fb, _neg = aclgen.merge_pairs()[case["i"]]
         ra, rb_ = fa(), fb()
         combined = aclgen.combined_text([("ga", refacl.text(ra)), ("gb", refacl.text(rb_))])
         got = to_list(patching.apply_acl(env.to_odict(case["forest"]), compile_text(combined)))
